@@ -72,6 +72,16 @@ func HarnessC17Response() {
 	}
 	tpl, loadErr := NewTemplate(cfg)
 	vAssert(loadErr == nil && tpl != nil, "templates-load")
+	reconfigured := false
+	if vChoice("configured-after", 2) == 1 {
+		// a later NewTemplate call of the same process with the opposite debug setting (the configuration is
+		// process-wide): the response must follow one of the two settings as a whole
+		c2 := *cfg
+		c2.DebugMode = !debug
+		next, nerr := NewTemplate(&c2)
+		vAssert(nerr == nil && next != nil, "templates-load")
+		reconfigured = true
+	}
 	var name string
 	var data map[string]any
 	d := string([]byte{vByte("d")})
@@ -111,6 +121,10 @@ func HarnessC17Response() {
 	vAssert(err != nil, "failure-returns-a-non-nil-error")
 	vAssert(!hasSub(body, "HEADMARK") && !hasSub(body, "TAILMARK") && !hasSub(body, "[p]") && !hasSub(body, "[n]"), "body-contains-no-part-of-the-failed-page")
 	msg, path := wantErr.Message(), wantErr.Filepath()
+	if reconfigured {
+		vAssert(c17Follows(body, false, errCfg, msg, path) || c17Follows(body, true, errCfg, msg, path), "response-follows-one-debug-setting-as-a-whole")
+		return
+	}
 	switch {
 	case errCfg == 1 && !debug:
 		vAssert(body == "Custom oops", "custom-error-page-is-written-when-configured-and-debug-is-off")
@@ -126,4 +140,21 @@ func HarnessC17Response() {
 		vAssert(hasSub(body, msg), "debug-on-shows-the-message")
 		vAssert(hasSub(body, path), "debug-on-shows-the-path")
 	}
+}
+
+// c17Follows: the body is what the statement prescribes for a failed render under the given debug setting.
+func c17Follows(body string, debug bool, errCfg int, msg, path string) bool {
+	if debug {
+		return hasSub(body, "<!DOCTYPE html>") && hasSub(body, msg) && hasSub(body, path)
+	}
+	if hasSub(body, msg) || (path != "" && hasSub(body, path)) {
+		return false
+	}
+	switch errCfg {
+	case 1:
+		return body == "Custom oops"
+	case 2, 3:
+		return body == ""
+	}
+	return hasSub(body, "<!DOCTYPE html>")
 }
